@@ -736,7 +736,8 @@ def run(ctx):
     ctx.tie["fit.py _pre_para/_pre_init_guess/_init_curve_fit_para/curve/_post_fitting + CovModel setters"] = \
         "hand model + correspondence (recorded curve_fit traces)"
     tie_broken = [] if okd else ["extraction/driver build failed: " + out[-300:]]
-    n_cases = 420 if thorough else 90
+    n_cases = 3000 if thorough else 300
+    first_tie_case = None
     try:
         # ---- corpus: past failures first
         import glob
@@ -747,7 +748,6 @@ def run(ctx):
             tb = run_case(ctx, drv, case, stage="corpus")
             tie_broken += ["%s: %s" % (os.path.basename(p), t) for t in tb]
         # ---- correspondence + property statement on generated configurations
-        first_tie_case = None
         for i in range(n_cases):
             force = {}
             if i < len(CLASSES):
@@ -765,8 +765,9 @@ def run(ctx):
             tie_broken += tb
         C.log("[C10] correspondence + property probes on %d generated configurations: %.1fs" % (n_cases, time.time() - t0))
         # ---- recovery probes
-        for case in recovery_cases(rng, ctx.tier):
-            run_recovery(ctx, case)
+        for rep in range(6 if thorough else 1):
+            for case in recovery_cases(rng, ctx.tier):
+                run_recovery(ctx, case)
         # ---- malformed calls: must raise ValueError, nothing else
         malformed(ctx, rng)
     finally:
@@ -779,7 +780,7 @@ def run(ctx):
         if tie_broken:
             what.append("correspondence FitBook vs fit_variogram: " + "; ".join(tie_broken[:3]))
         ctx.violation("proof/tie", " | ".join(what),
-                      dict(disagreements=tie_broken[:20], case=(first_tie_case[0] if tie_broken and 'first_tie_case' in dir() and first_tie_case else None)),
+                      dict(disagreements=tie_broken[:20], case=(first_tie_case[0] if first_tie_case else None)),
                       no_input=True)
 
 
